@@ -7,6 +7,7 @@ import (
 	"fmt"
 	"math/big"
 	"strconv"
+	"time"
 
 	"github.com/libsv/go-bt/v2"
 
@@ -56,6 +57,10 @@ type c12In struct {
 	Steps []c12Step `json:"steps"` // after the last step the supplier reports exhaustion for ever
 	// DupOutpoint: some supplier UTXO repeats an outpoint of a prior input or of an earlier batch (coverage only)
 	DupOutpoint bool `json:"dup_outpoint,omitempty"`
+	// Ctx: the state of the context Fund is given. Fund hands it to the supplier and nothing else: what
+	// the supplier reports decides. "" = chosen from the content; live | cancelled-before |
+	// deadline-passed | cancelled-in-first-call | cancelled-at-exhaustion
+	Ctx string `json:"ctx,omitempty"`
 }
 
 // c12Call is one recorded supplier call.
@@ -78,6 +83,7 @@ type c12Supplier struct {
 	ctxSeen     context.Context
 	ctxMismatch bool
 	fq          *bt.FeeQuote
+	cancel      func()
 }
 
 func (s *c12Supplier) next(ctx context.Context, deficit uint64) ([]*bt.UTXO, error) {
@@ -85,6 +91,10 @@ func (s *c12Supplier) next(ctx context.Context, deficit uint64) ([]*bt.UTXO, err
 		s.ctxMismatch = true
 	}
 	k := len(s.calls)
+	if s.cancel != nil && (s.in.Ctx == "cancelled-in-first-call" && k == 0 ||
+		s.in.Ctx == "cancelled-at-exhaustion" && (k >= len(s.in.Steps) || s.in.Steps[k].Kind == "exhausted" || s.in.Steps[k].Kind == "exhausted-wrap")) {
+		s.cancel() // the application shuts down while the wallet answers
+	}
 	if k >= len(s.in.Steps) {
 		s.afterEnd++
 		if s.afterEnd >= 1000 {
@@ -279,6 +289,7 @@ func init() {
 			"batch:empty", "batch:size=1", "batch:size=5", "batch:left-exactly-covered", "batch:left-1-sat-short", "batch:left-deficit", "batch:overfunded",
 			"start:no-prior-inputs", "start:prior-inputs", "start:data-outputs", "exhausted:wrapped", "exhausted:after-script-end",
 			"success:inputs-compared", "deficit-argument:compared", "enumerated:scripts", "quote:data!=std", "quote:zero-rate", "quote:gt1",
+			"context:live", "context:cancelled-before", "context:deadline-passed", "context:cancelled-in-first-call", "context:cancelled-at-exhaustion",
 		}
 		for _, k := range need {
 			if a.Cov[k] == 0 {
@@ -544,7 +555,26 @@ func c12Judge(c *mon.Ctx, in *c12In) {
 	q := in.Quote.ref()
 	before := takeSnap(tx)
 	ctx := context.WithValue(context.Background(), c12CtxKey{}, "c12")
-	sup := &c12Supplier{in: in, model: before.ref(), q: q, ctxSeen: ctx, fq: fq}
+	if in.Ctx == "" && !c.Replay {
+		h := uint64(len(in.Steps))*7 + uint64(len(in.Tx.Ins))*3 + uint64(len(in.Tx.Outs)) + uint64(in.Quote.StdSat)
+		for i := range in.Steps {
+			h = h*131 + uint64(len(in.Steps[i].UTXOs)) + uint64(len(in.Steps[i].Kind))
+		}
+		in.Ctx = [...]string{"live", "cancelled-before", "live", "deadline-passed", "live", "cancelled-at-exhaustion", "live", "cancelled-in-first-call", "live", "live"}[h%10]
+	}
+	cancel := func() {}
+	switch in.Ctx {
+	case "cancelled-before":
+		ctx, cancel = context.WithCancel(ctx)
+		cancel()
+	case "deadline-passed":
+		ctx, cancel = context.WithDeadline(ctx, time.Unix(1, 0))
+	case "cancelled-in-first-call", "cancelled-at-exhaustion":
+		ctx, cancel = context.WithCancel(ctx)
+	}
+	defer cancel()
+	c.Count("context:" + in.Ctx)
+	sup := &c12Supplier{in: in, model: before.ref(), q: q, ctxSeen: ctx, fq: fq, cancel: cancel}
 	var ferr error
 	returned := c.Try("bt.(*Tx).Fund", func() { ferr = tx.Fund(ctx, fq, sup.next) })
 	after := takeSnap(tx)
